@@ -65,6 +65,8 @@ class RefBleAccessory:
         self.pairings_reply = None              # override for the pairings characteristic: list of TLV items
         self.timed = {}
         self.decrypt_errors = []
+        self.endless_fragments = {}             # "verify" | "setup" -> True: the last fragment of a fragmented reply is withheld for ever
+        self.endless_sent = 0
         self.abort_fragments = {}               # "verify" | "setup" -> (fragments delivered before the abort, error reply items)
         self.frag_sent = {}
         self.aborted_steps = []
@@ -255,6 +257,10 @@ class RefBleAccessory:
 
     def _next_piece(self, key):
         pieces = self.frag_buffer.get(key) or [b""]
+        if self.endless_fragments.get(key) and len(pieces) == 1 and self.frag_buffer.get(key):
+            # the last fragment never comes: the accessory keeps answering with empty FragmentData items
+            self.endless_sent += 1
+            return tlv_enc([(1, tlv_enc([(T_FRAGDATA, b"")]))])
         ab = self.abort_fragments.get(key)
         if ab is not None and self.abort_only_stage in (None, self.cur_stage):
             self.frag_sent[key] = self.frag_sent.get(key, 0) + 1
